@@ -954,9 +954,18 @@ pub fn gen_scene(rng: &mut crate::prng::Rng, prof: &SceneProfile) -> Scene {
             singular = t.inverse().is_none();
             ops.push(Op::SetTransform(t));
         } else if r < 0.5 && !open.is_empty() && rng.chance(0.5) {
-            match open.pop().unwrap() {
-                'c' => ops.push(Op::PopClip),
-                _ => ops.push(Op::PopLayer),
+            // pops need not nest with layers: a clip pushed before a layer may be popped while the layer is open
+            let top = *open.last().unwrap();
+            let cross = top == 'l' && open.contains(&'c') && rng.chance(0.25);
+            if cross {
+                let k = open.iter().rposition(|c| *c == 'c').unwrap();
+                open.remove(k);
+                ops.push(Op::PopClip);
+            } else {
+                match open.pop().unwrap() {
+                    'c' => ops.push(Op::PopClip),
+                    _ => ops.push(Op::PopLayer),
+                }
             }
         } else {
             ops.push(gen_draw(rng, w, h, prof, singular));
